@@ -202,12 +202,11 @@ def pytest_configure(config):
 
 
 def is_xfail(request):
-    if not "xfail" in request.keywords:
-        return False
-    xfail = request.keywords["xfail"]
-    if xfail.args and xfail.args[0] == False:
-        return False
-    return True
+    # pytest xfails a test if any of its xfail marks applies (own or inherited ones)
+    for xfail in request.node.iter_markers(name="xfail"):
+        if not (xfail.args and xfail.args[0] == False):
+            return True
+    return False
 
 
 @pytest.fixture(autouse=True)
